@@ -31,10 +31,11 @@ theorem translated_producers_safe : Gen.C12.producers.all (fun e => e.2.safe) = 
 theorem model_producers_safe : P.Safe := ⟨by decide, by decide, by decide⟩
 
 /-- receivers the solve procedure may assign to: the unit / hook host itself, its own cache and dict, its own
-out-profile, the hook function's bookkeeping set, a (class-level) hook object -/
+out-profile, the hook function's bookkeeping set, a (class-level) hook object, the cache of the pass whose
+pre-processor is being built -/
 def allowedReceivers : List String :=
   ["self", "self.__cache__", "self.out_profile", "self._active_instances", "instance.__dict__", "instance.__cache__",
-   "owner", "hook"]
+   "owner", "hook", "roll_pass.__cache__"]
 
 /-- the source still has the shape the hand-written model assumes: both copy constructors take the public entries
 only, by reference, set a weak back-link and do nothing else; `init_solve` stores COPIES; the sub-units are fed the
